@@ -9,6 +9,12 @@ import (
 	"github.com/jsightapi/jsight-api-go-library/notation"
 )
 
+// UnescapeParameter gives the value of a parameter as it was written: without
+// the double quotes around it and the backslashes which escape bytes in it.
+func UnescapeParameter(b bytes.Bytes) bytes.Bytes {
+	return unescapeParameter(b)
+}
+
 func unescapeParameter(b bytes.Bytes) bytes.Bytes {
 	if !b.InQuotes() {
 		return b
